@@ -113,11 +113,14 @@ def resVal : Res Val → String
   | .error e => e.tag
 
 /-- values inside the scope of the oracle: strings and open types of any length (fragmented per X.691 11.9.3.8 from 16K
-    items on); a SEQUENCE OF of 16384 elements or more is outside (the specification does not fragment counts) -/
+    items on); a SEQUENCE OF of 16384 elements or more is outside (the specification does not fragment counts); a Go BitString
+    whose `Bytes` does not have ⌈BitLength/8⌉ octets is not a BIT STRING value at all (C03 speaks of values outside their
+    CONSTRAINTS; what the library does with an inconsistent representation — it traps — is compared with the model only) -/
 partial def inScope : Val → Bool
   | .ptr v => inScope v
   | .struct fs => fs.all inScope
   | .slice l => l.length < 16384 && l.all inScope
+  | .bits b n => b.length == (n + 7) / 8
   | _ => true
 
 /-- the schema the oracle encodes under: the frozen TS 38.413 table (Spec/Ts38413Schema.lean), with the constraints of the
